@@ -242,6 +242,10 @@ pub fn families(rng: &mut Rng) -> Vec<Family> {
             members: vec![
                 f(1, 3, 1, vec![], 2, "m"), f(2, 3, 1, vec![], 2, "m"), f(1, 4, 1, vec![], 2, "m"), f(1, 3, 2, vec![], 2, "m"),
                 f(1, 3, 1, vec![Val::int(0)], 2, "m"), f(1, 3, 1, vec![Val::int(1)], 2, "m"), f(1, 3, 1, vec![], 3, "m"), f(1, 3, 1, vec![], 2, "n"),
+                // environments of different lengths whose elements order the other way round than their lengths
+                f(1, 3, 1, vec![Val::int(5)], 2, "m"), f(1, 3, 1, vec![Val::int(1), Val::int(2)], 2, "m"), f(1, 3, 1, vec![Val::int(9)], 2, "m"),
+                f(1, 3, 1, vec![Val::int(0), Val::int(0), Val::int(0)], 2, "m"), f(1, 3, 1, vec![Val::int(1), Val::int(2), Val::int(0)], 2, "m"),
+                f(1, 3, 1, vec![Val::atom("a")], 2, "m"), f(1, 3, 1, vec![Val::int(7), Val::atom("a")], 2, "m"),
                 Val::ExtFun { module: "m".into(), function: "f".into(), arity: 1 }, Val::ExtFun { module: "m".into(), function: "f".into(), arity: 2 },
                 Val::ExtFun { module: "m".into(), function: "g".into(), arity: 1 }, Val::ExtFun { module: "n".into(), function: "f".into(), arity: 1 },
             ],
